@@ -746,3 +746,11 @@ v('C18', 'elementat-empty-is-error', 'c18.index-contracts', (F, '''	if len(*slic
 	}
 	indexRaw, err''', '''	indexRaw, err'''))
 v('C18', 'gob-id-not-primed', 'c18.hash-stable', (F, '	_ = gob.NewEncoder(io.Discard).Encode(struct{ Data any }{})\n', '	_ = io.Discard\n'))
+v('C14', 'spinasync-never-signals', 'c10.go-closure', (P, '''				defer query.wg.Done()
+				defer query.reportPanic()
+				_, err := function(query, current, nil, slice)''', '''				defer query.reportPanic()
+				_, err := function(query, current, nil, slice)'''))
+v('C10', 'async-never-signals', 'c10.go-closure', (P, '''				defer query.wg.Done()
+				defer query.reportPanic()
+				value, err := function(query, current, nil, slice)''', '''				defer query.reportPanic()
+				value, err := function(query, current, nil, slice)'''))
